@@ -84,3 +84,27 @@ func init() {
 		return Iface{t: rt, v: &nativeObj{"rtype", x.t}}, true
 	})
 }
+
+// context.WithValue without its reflectlite comparability check (keys are comparable in practice):
+// builds the *context.valueCtx directly; Value lookups then run as real code.
+func init() {
+	regSimple("context.WithValue", func(in *Interp, a []Value) Value {
+		cp := in.prog.ImportedPackage("context")
+		vt := cp.Type("valueCtx").Type()
+		st := vt.Underlying().(*types.Struct)
+		val := in.zero(vt).(Struct)
+		for i := 0; i < st.NumFields(); i++ {
+			switch st.Field(i).Name() {
+			case "Context":
+				val[i] = a[0]
+			case "key":
+				val[i] = a[1]
+			case "val":
+				val[i] = a[2]
+			}
+		}
+		cell := new(Value)
+		*cell = val
+		return Iface{t: types.NewPointer(vt), v: Ptr{cell: cell}}
+	})
+}
